@@ -426,6 +426,162 @@ fn gen_vec_pk_bytes(u: &mut Unstructured<'_>) -> arbitrary::Result<Vec<(PublicKe
 }
 
 // ---------------------------------------------------------------------------
+// long sequences
+//
+// `Arbitrary` driven by a few kilobytes of rng bytes never builds a sequence of more than a few
+// thousand elements. `Grow` makes one sequence inside a value long: element counts whose
+// in-memory size sits on, just below and just above whole numbers of MiB (the scale at which
+// decoders budget their reservations), and counts drawn between those.
+
+pub type GrowFn<T> = fn(&mut T, &mut Rng) -> bool;
+
+pub trait Grow {
+    /// true when a sequence inside `self` was made long
+    fn grow(&mut self, rng: &mut Rng) -> bool;
+}
+
+/// element count for a long `Vec<X>`
+pub fn long_len(elem_size: usize, rng: &mut Rng) -> usize {
+    let sz = elem_size.max(1);
+    let mib = (1usize << 20) / sz;
+    let base = match rng.below(10) {
+        0 => mib,
+        1..=5 => 2 * mib,
+        6 => 3 * mib,
+        7 => 4 * mib,
+        _ => mib + rng.usize(3 * mib + 1),
+    };
+    let n = match rng.below(8) {
+        0 => base.saturating_sub(1),
+        1 => base,
+        2..=4 => base + 1,
+        5 => base + 1 + rng.usize(64),
+        _ => base + rng.usize(base / 4 + 2),
+    };
+    n.max(2)
+}
+
+fn fresh<X: for<'a> Arbitrary<'a>>(rng: &mut Rng) -> Option<X> {
+    for _ in 0..8 {
+        let buf = arb_buffer(rng);
+        let mut u = Unstructured::new(&buf);
+        if let Ok(Ok(x)) = guarded(|| X::arbitrary(&mut u)) {
+            return Some(x);
+        }
+    }
+    None
+}
+
+impl<X: Clone + for<'a> Arbitrary<'a>> Grow for Vec<X> {
+    fn grow(&mut self, rng: &mut Rng) -> bool {
+        let n = long_len(std::mem::size_of::<X>(), rng);
+        // a small pool of distinct elements (the ones already there plus fresh ones), tiled
+        let mut pool: Vec<X> = self.iter().take(24).cloned().collect();
+        for _ in 0..(1 + rng.usize(6)) {
+            if let Some(x) = fresh::<X>(rng) {
+                pool.push(x);
+            }
+        }
+        if pool.is_empty() {
+            return false;
+        }
+        self.clear();
+        self.reserve_exact(n);
+        let k = pool.len();
+        let start = rng.usize(k);
+        for i in 0..n {
+            self.push(pool[(start + i) % k].clone());
+        }
+        true
+    }
+}
+impl<V: Grow + Default> Grow for Option<V> {
+    fn grow(&mut self, rng: &mut Rng) -> bool {
+        self.get_or_insert_with(V::default).grow(rng)
+    }
+}
+impl<A, V: Grow> Grow for (A, V) {
+    fn grow(&mut self, rng: &mut Rng) -> bool {
+        self.1.grow(rng)
+    }
+}
+impl Grow for Bytes {
+    fn grow(&mut self, rng: &mut Rng) -> bool {
+        let n = long_len(1, rng);
+        let mut b = rng.bytes(4096);
+        b.resize(n, rng.u8());
+        *self = Bytes::new(b);
+        true
+    }
+}
+macro_rules! grow_fields {
+    ($($t:ty : $($f:ident),+ ;)*) => {$(
+        impl Grow for $t {
+            fn grow(&mut self, rng: &mut Rng) -> bool {
+                let fs: &[fn(&mut $t, &mut Rng) -> bool] = &[$(|s, r| s.$f.grow(r)),+];
+                let f = fs[rng.usize(fs.len())];
+                f(self, rng)
+            }
+        }
+    )*};
+}
+grow_fields! {
+    Handshake: capabilities;
+    FeeEstimateGroup: estimates;
+    BlockRecord: reward_claims_incorporated, finished_challenge_slot_hashes,
+        finished_infused_challenge_slot_hashes, finished_reward_slot_hashes;
+    RespondPeers: peer_list;
+    SpendBundle: coin_spends;
+    HeaderBlock: finished_sub_slots;
+    RespondBlockHeaders: header_blocks;
+    RespondHeaderBlocks: header_blocks;
+    SubEpochChallengeSegment: sub_slots;
+    WeightProof: sub_epochs;
+    RequestRemovals: coin_names;
+    RespondRemovals: coins, proofs;
+    RequestAdditions: puzzle_hashes;
+    RespondAdditions: coins, proofs;
+    RegisterForPhUpdates: puzzle_hashes;
+    RespondToPhUpdates: puzzle_hashes, coin_states;
+    RegisterForCoinUpdates: coin_ids;
+    RespondToCoinUpdates: coin_ids, coin_states;
+    CoinStateUpdate: items;
+    RespondChildren: coin_states;
+    RespondSesInfo: reward_chain_hash, heights;
+    RequestFeeEstimates: time_targets;
+    RequestRemovePuzzleSubscriptions: puzzle_hashes;
+    RespondRemovePuzzleSubscriptions: puzzle_hashes;
+    RequestRemoveCoinSubscriptions: coin_ids;
+    RespondRemoveCoinSubscriptions: coin_ids;
+    RequestPuzzleState: puzzle_hashes;
+    RespondPuzzleState: puzzle_hashes, coin_states;
+    RequestCoinState: coin_ids;
+    RespondCoinState: coin_ids, coin_states;
+    MempoolItemsAdded: transaction_ids;
+    MempoolItemsRemoved: removed_items;
+}
+
+/// `Some(<T as Grow>::grow)` when `T: Grow`, `None` otherwise (resolved per concrete type
+/// inside the registry macros: the by-reference impl is only reached when the first fails)
+pub struct Probe<T>(pub std::marker::PhantomData<T>);
+pub trait PickGrow<T> {
+    fn pick(&self) -> Option<GrowFn<T>>;
+}
+impl<T: Grow> PickGrow<T> for Probe<T> {
+    fn pick(&self) -> Option<GrowFn<T>> {
+        Some(<T as Grow>::grow)
+    }
+}
+pub trait PickNone<T> {
+    fn pick(&self) -> Option<GrowFn<T>>;
+}
+impl<T> PickNone<T> for &Probe<T> {
+    fn pick(&self) -> Option<GrowFn<T>> {
+        None
+    }
+}
+
+// ---------------------------------------------------------------------------
 // entries
 
 pub struct Typed<T> {
@@ -434,6 +590,8 @@ pub struct Typed<T> {
     pub flags: u32,
     pub gen: GenFn<T>,
     pub walk: Option<fn(&mut T, &mut dyn FnMut(Hw<'_>))>,
+    /// make one sequence inside the value long (see `Grow`); None for types without one
+    pub grow: Option<GrowFn<T>>,
 }
 
 impl<T: Ty> Typed<T> {
@@ -467,6 +625,7 @@ pub trait DynEntry {
     fn name(&self) -> &'static str;
     fn covers(&self) -> &'static [&'static str];
     fn flags(&self) -> u32;
+    fn can_grow(&self) -> bool;
     fn c13_case(&self, rng: &mut Rng, rep: &mut Report, cx: &crate::c13::Cx, kind: crate::c13::Kind);
     fn c14_case(&self, rng: &mut Rng, rep: &mut Report, cx: &mut crate::c14::WCx, kind: u32);
     /// (max heap-peak / wire-length, in-memory size) over generated valid encodings
@@ -484,6 +643,9 @@ impl<T: Ty> DynEntry for Typed<T> {
     }
     fn flags(&self) -> u32 {
         self.flags
+    }
+    fn can_grow(&self) -> bool {
+        self.grow.is_some()
     }
     fn c13_case(&self, rng: &mut Rng, rep: &mut Report, cx: &crate::c13::Cx, kind: crate::c13::Kind) {
         crate::c13::case(self, rng, rep, cx, kind);
@@ -508,7 +670,8 @@ pub fn registry() -> Registry {
 
     macro_rules! add {
         ($name:expr, $ty:ty, [$($cov:expr),*], $flags:expr, $gen:expr, $walk:expr) => {
-            v.push(Box::new(Typed::<$ty> { name: $name, covers: &[$($cov),*], flags: $flags, gen: $gen, walk: $walk }))
+            v.push(Box::new(Typed::<$ty> { name: $name, covers: &[$($cov),*], flags: $flags, gen: $gen, walk: $walk,
+                grow: (&Probe::<$ty>(std::marker::PhantomData)).pick() }))
         };
     }
     // protocol structs/enums with derived Arbitrary, named after the type
